@@ -240,7 +240,8 @@ def validating_function(ctx):
     # `finish(self) -> NormalizedString` of a private builder - is seen in its callers)
     absorbed = ctx.fb.absorbed()
     sites = util.aggregates(ctx.fb, NS)
-    fns = sorted({b.path for b, _, _, _ in sites if b.path not in absorbed})
+    fc = util.faithful_clones(ctx)     # a proved field-for-field copy constructs no new text
+    fns = sorted({b.path for b, _, _, _ in sites if b.path not in absorbed and b.path not in fc})
     return fns[0] if len(fns) == 1 else None
 
 
@@ -645,11 +646,34 @@ def check_tail(ctx, rep, INNER_FN):
                 ok = False
         rep.check(bool(ok), "constructors", fn, "delegates", why if ok else "delegates", why if not verdict[fn][0] else "%s does not end in the validating function" % fn, (ctx.flat.run(fn).body.loc() if ctx.flat.run(fn) is not None else None))
     # ------------------------------------------------------------ derives and field order
-    dt = fb.derived_traits(NS)
-    need = {"std::cmp::PartialEq", "std::cmp::Eq", "std::hash::Hash", "std::cmp::Ord", "std::cmp::PartialOrd", "std::clone::Clone"}
-    rep.check(need <= dt, "derives", NS, "derived", "Eq/Ord/Hash/Clone are derived (field-wise)", "not derived: %s" % sorted(need - dt))
+    # equality, ordering and hashing follow the text: the zero-padded array determines the text
+    # (no accepted character is 0) and orders like it (padding sorts below every character), so
+    # == must compare the whole array, cmp must compare it first, hash must feed it; derived or
+    # written by hand.  A copy is the same value.
     tys = [fb.ty(f["ty"]).k for f in fb.adt_fields(NS)]
-    rep.check(tys == ["array", "int"], "derives", NS, "field-order", "fields are (text array, length) in that order: derived Ord compares the text first", "field order is %s: derived ordering would compare the length before the text" % tys)
+    ai_ = tys.index("array") if "array" in tys else None
+    eqf = util.eq_fields(ctx, NS)
+    chain = util.cmp_chain(ctx, NS)
+    pco = util.partial_cmp_consistent(ctx, NS)
+    hf = util.hash_fields(ctx, NS)
+    cv = util.clone_verdict(ctx, NS)
+    probs = []
+    if ai_ is None:
+        probs.append("no text array field")
+    if eqf is None or ai_ not in eqf:
+        probs.append("== does not compare the whole text array (fields compared: %s)" % (sorted(eqf) if eqf else "not a field-wise conjunction"))
+    if chain is None or not chain or chain[0] != ai_:
+        probs.append("cmp does not compare the text array first (order of comparison: %s)" % (chain if chain else "not a lexicographic chain over fields"))
+    elif eqf is not None and set(chain) != eqf:
+        probs.append("cmp and == look at different fields (%s / %s)" % (chain, sorted(eqf)))
+    if pco is not True:
+        probs.append("partial_cmp is not Some(cmp)")
+    if hf is None or ai_ not in hf or (eqf is not None and not set(hf) <= eqf):
+        probs.append("hash does not feed the text array / feeds a field == ignores (%s)" % hf)
+    if cv is None or not cv[2]:
+        probs.append("Clone: %s" % (cv[3] if cv else "not implemented"))
+    rep.check(not probs, "derives", NS, "derived", "Eq/Ord/Hash compare, order and feed the text array first / whole (derived or field-wise by hand); Clone is field for field", "; ".join(probs))
+    rep.check(tys == ["array", "int"], "derives", NS, "field-order", "fields are (text array, length) in that order: a derived Ord compares the text first", "field order is %s: derived ordering would compare the length before the text" % tys) if "std::cmp::Ord" in fb.derived_traits(NS) else rep.ok("derives", NS, "field-order", "Ord is written by hand; its order of comparison is decided by rule derives/derived")
     # ------------------------------------------------------------ text view
     AR = "<normalized_string::NormalizedString as std::convert::AsRef<str>>::as_ref"
     ase = ctx.pure.run(AR)
@@ -679,7 +703,7 @@ def check_tail(ctx, rep, INNER_FN):
     # ------------------------------------------------------------ who may construct
     sites = util.aggregates(fb, NS)
     absorbed = fb.absorbed()
-    bad = [b.path for b, _, _, _ in sites if b.path != INNER and b.path not in absorbed]
+    bad = [b.path for b, _, _, _ in sites if b.path != INNER and b.path not in absorbed and b.path not in util.faithful_clones(ctx)]
     rep.check(bool(sites) and not bad, "who-may-construct", NS, "aggregate", "constructed only by the validating function", "NormalizedString is also constructed in %s" % bad)
     pubf = [f["name"] for f in fb.adt_fields(NS) if f["pub"]]
     rep.check(not pubf, "who-may-construct", NS, "private-fields", "fields private", "public fields %s" % pubf)
